@@ -62,6 +62,13 @@ def drv_evaluate(case):
     comps = [c.id for c in _compounds(m)]
     points = []
     shared = {}                                 # ONE dictionary object, updated in place between calls on the same model
+    other, other_vals = None, {}
+    if case.get("prelude"):
+        try:
+            other = B.build(case["prelude"][0])
+            other_vals = {v.id: proj.I(v.bounds.lower) for v in proj.leaves(other) if v.id not in {x.id for x in lv}}
+        except Exception:
+            other = None
     def point(asg, over, k):
         mm = _mk(case) if over else m          # evaluate() with a compound id leaks (known finding D2): fresh object
         interp = {i: _form(v, k + j, puan) for j, (i, v) in enumerate(asg.items())}
@@ -79,6 +86,12 @@ def drv_evaluate(case):
         else:
             shared.clear(); shared.update(interp)
             arg1 = arg2 = shared
+            if other is not None:
+                # another model is asked with the very same dictionary first (it names the leaves of both models)
+                shared.update(other_vals)
+                interp = dict(shared)
+                try: other.evaluate_propositions(shared); other.evaluate(shared)
+                except Exception: pass
         res = mm.evaluate_propositions(arg1)
         mm2 = _mk(case) if over else m
         top = mm2.evaluate(arg2)
@@ -131,9 +144,14 @@ def _critical_points(m, rng, n_extra=24):
 def _evals(m, box, tok, puan, k0=0):
     """library evaluate_propositions on every total assignment of the box"""
     pts = []
+    shared = {}
     for k, asg in enumerate(box):
         interp = {i: _form(v, k + k0 + j, puan) for j, (i, v) in enumerate(asg.items())}
-        res = m.evaluate_propositions(interp)
+        if k % 4:                              # runs of calls with ONE dictionary object that the caller updates in place
+            shared.clear(); shared.update(interp); arg = shared
+        else:
+            arg = interp
+        res = m.evaluate_propositions(arg)
         pts.append({"asg": proj.pairs_int(asg, tok), "ev": proj.pairs_iv(res, tok)})
     return pts
 
@@ -146,6 +164,10 @@ def _prelude(case):
             pm = B.build(r)
             if _valid(pm):
                 pm.to_ge_polyhedron(active=True); pm.to_ge_polyhedron(active=False)
+                for x in pm.flatten():
+                    if not proj.is_var(x):
+                        x.equation_bounds, x.is_tautology, x.is_contradiction
+                pm.evaluate({}); pm.evaluate_propositions({})
         except Exception:
             pass
 
@@ -225,6 +247,7 @@ def _subranges(v):
 
 def drv_partial(case):
     puan, pg = _mods()
+    _prelude(case)
     m = _mk(case)
     if not _valid(m): return []
     tok = proj.Tok()
@@ -401,9 +424,13 @@ def drv_build(case):
             continue
         tok = proj.Tok()
         table = []
+        shared_ = {}
         for k, vals in enumerate(itertools.product((0, 1), repeat=len(ids))):
             asg = dict(zip(ids, vals))
-            table.append({"asg": proj.pairs_int(asg, tok), "ev": proj.bounds(m.evaluate({i: _form(v, k, puan) for i, v in asg.items()}))})
+            interp_ = {i: _form(v, k, puan) for i, v in asg.items()}
+            if k % 4:
+                shared_.clear(); shared_.update(interp_); interp_ = shared_        # one dictionary object updated in place
+            table.append({"asg": proj.pairs_int(asg, tok), "ev": proj.bounds(m.evaluate(interp_))})
         out.append({"op": "build", "via": via, "recipe": B.recipe_tokens(r, tok), "model": proj.node(m, tok), "table": table})
     return out
 
@@ -440,6 +467,17 @@ def drv_json(case):
     box = _box(proj.leaves(m))
     if box is None: return []
     pm = proj.node(m, tok)
+    if case.get("k", 0) % 2 == 0 or case.get("src") == "handmade":
+        # a caller that edits the data structure it got from an earlier to_json() (leaf entries renamed / re-bounded in place): the
+        # next to_json() of the untouched model is still the model's own document
+        def scribble(d):
+            if isinstance(d, dict):
+                if "propositions" not in d and "id" in d:
+                    d["id"] = "scribbled"; d["bounds"] = {"lower": -9, "upper": 9}
+                for v in list(d.values()): scribble(v)
+            elif isinstance(d, list):
+                for v in d: scribble(v)
+        scribble(m.to_json())
     j = json.loads(json.dumps(m.to_json()))
     back = _from_json(j, case)
     pts = []
@@ -492,10 +530,13 @@ def drv_b64(case):
         if not case.get("wide"): return []
         box = _critical_points(m, random.Random(case.get("seed", 0)), n_extra=4)
     is_cfg = case["recipe"]["c"] == "Cfg"
+    pm0, sh0 = proj.node(m, tok), _shorts(m, tok)          # what the model is BEFORE it is packed (packing must not rearrange it)
+    if is_cfg and case.get("k", 0) % 2 == 0:
+        m.ge_polyhedron                                      # a polyhedron made earlier
     s = m.to_b64()
     back = pg.from_b64(s)
-    out = [{"op": "b64", "model": proj.node(m, tok), "back": proj.node(back, tok),
-            "shorts_before": _shorts(m, tok), "shorts_after": _shorts(back, tok),
+    out = [{"op": "b64", "model": pm0, "back": proj.node(back, tok),
+            "shorts_before": sh0, "shorts_after": _shorts(back, tok),
             "q_before": _battery(m, box, tok, puan, is_cfg), "q_after": _battery(back, box, tok, puan, is_cfg),
             "again": proj.node(pg.from_b64(s), tok), "same_string": bool(back.to_b64() == s)}]
     import zlib
@@ -626,6 +667,19 @@ def drv_poly_reduce(case):
     ar = pnd.reduce_rows(Q, r1) if use_alias else Q.reduce_rows(r1)
     out.append(dict(base, op="reduce_ops", red_rows=[proj.I(x) for x in numpy.asarray(r1).tolist()], fixed=fx, val=vl,
                     after_cols=_pp(ac, tok), after_rows=_pp(ar, tok), after=_pp(Q, tok), model=base))
+    if case.get("k", 0) % 3 == 0:
+        # the domain of a column is changed on the queried object (new variable / Bounds edited in place): it answers for the new box
+        for j, v in enumerate(list(Q.variables)[1:]):
+            lo, hi = int(v.bounds.lower), int(v.bounds.upper)
+            if hi > lo:
+                if case.get("k", 0) % 2: Q.variables[j + 1] = puan.variable(v.id, (lo, hi - 1))
+                else: v.bounds.upper = hi - 1
+                b2 = _pp(Q, tok)
+                r2, c2 = Q.reducable_rows(), Q.reducable_columns_approx()
+                fx2, vl2 = _cv(c2)
+                out.append(dict(b2, op="reduce_ops", red_rows=[proj.I(x) for x in numpy.asarray(r2).tolist()], fixed=fx2, val=vl2,
+                                after_cols=_pp(Q.reduce_columns(c2), tok), after_rows=_pp(Q.reduce_rows(r2), tok), after=_pp(Q, tok), model=b2))
+                break
     return out
 
 def drv_tighten(case):
@@ -633,6 +687,18 @@ def drv_tighten(case):
     tok = proj.Tok()
     P = _poly(case)
     base = _pp(P, tok)
+    if case.get("default_vars"):
+        # polyhedra declared WITHOUT variables get default boolean variables of their own: one of them is re-declared on a first
+        # polyhedron, a second polyhedron of the same width is still over (0,1) columns
+        import puan, puan.ndarray as pnd
+        arr = numpy.array(case["rows"], dtype=numpy.int64).reshape(len(case["rows"]), -1)
+        P0 = pnd.ge_polyhedron(arr.copy())
+        if len(P0.variables) > 1:
+            P0.variables[1].bounds = puan.Bounds(-2, 3)
+            P0.column_bounds()
+        P = pnd.ge_polyhedron(arr.copy())
+        base = _pp(P, tok)
+        for c in base["cols"]: c["lo"], c["hi"] = 0, 1            # what was declared
     out = []
     calls = ["tight", "rowb", "colb", "ncomb"]
     k = case.get("k", 0)
